@@ -297,6 +297,8 @@ example :
     ((calculateScore cfg ext .ascii [97, 120, 98] [97, 98] 0 3).2.getLast?.getD 0) + 1 = 3 ∧
     (calculateScore cfg ext .ascii [97, 120, 98] [97, 98] 0 3) = (16 + 2 * 10 - 3 + 16, [0, 2]) := by
   decide
+end NucleoVerif
+
 namespace NucleoVerif
 open Gen Spec
 
